@@ -428,6 +428,42 @@ def standard_proof_part(res, pid, coq_ok, coq_log):
         res.trusted_base.append("standard-library axioms used (via Reals/Flocq): " + ", ".join(axioms))
     if problems:
         return False, "; ".join(problems)
+    if res.tier == "thorough":
+        ok, why = coqchk_property(res, pid)
+        if not ok:
+            return False, why
+    return True, ""
+
+
+def coqchk_property(res, pid):
+    """thorough tier: the compiled property file and everything it depends on is re-checked by the
+    independent checker coqchk; its report must name no axiom outside the allow-list and nothing
+    under type-in-type / unsafe fixpoints / assumed positivity."""
+    p = sh(["timeout", "1500", "coqchk", "-o", "-silent", "-Q", COQ, "CB", "CB.Properties." + pid], cwd=COQ, timeout=1600, check=False)
+    out = p.stdout
+    name = "coqchk -o: Properties/%s.vo and its dependencies re-checked; axioms within the allow-list; no type-in-type, unsafe fixpoint, assumed positivity" % pid
+    if p.returncode != 0:
+        res.oblige(name, False)
+        return False, "coqchk failed on Properties/%s.vo: %s" % (pid, out[-1500:])
+    sections = {}
+    cur = None
+    for ln in out.splitlines():
+        m = re.match(r"\* (.*?):\s*(.*)$", ln.strip())
+        if m:
+            cur = m.group(1)
+            sections[cur] = [m.group(2)] if m.group(2) else []
+        elif cur and ln.strip():
+            sections[cur].append(ln.strip())
+    ax = [x.split()[0] for x in sections.get("Axioms", []) if x and x != "<none>"]
+    bad_ax = [a for a in ax if a.split(".")[-1] not in [x.split(".")[-1] for x in AXIOM_ALLOW] and a not in AXIOM_ALLOW]
+    others = {k: v for k, v in sections.items() if k.startswith("Constants/Inductives relying") or k.startswith("Inductives whose positivity")}
+    bad_other = {k: v for k, v in others.items() if v and v != ["<none>"]}
+    ok = not bad_ax and not bad_other
+    res.oblige(name, ok)
+    res.extra["coqchk_axioms"] = ax
+    res.checker_cmd += "; coqchk -o -silent -Q coq CB CB.Properties.%s (thorough tier)" % pid
+    if not ok:
+        return False, "coqchk report for Properties/%s.vo: axioms outside the allow-list %s; %s" % (pid, bad_ax, bad_other)
     return True, ""
 
 
